@@ -255,6 +255,11 @@ def run_tlc(module, cfg=None, workers=None, simulate=None, depth=None,
                   text)
     if m:
         res.generated, res.distinct = int(m.group(1)), int(m.group(2))
+    m = re.search(r'The number of states generated: (\d+)', text)
+    if m and not res.generated:
+        res.generated = int(m.group(1))
+        res.distinct = len({json.dumps(r.get('to'), sort_keys=True)
+                            for r in res.lines if isinstance(r, dict)})
     m = re.search(r'depth of the complete state graph search is (\d+)', text)
     if m:
         res.depth = int(m.group(1))
